@@ -17,9 +17,9 @@ CLAIMS = {
                 note="Trusted: Kani/CBMC, the container/RocksDB/lock models, the paper composition argument of DESIGN.md §4; EVM execution, JSON-RPC answers and contract code are outside."),
     "C02": dict(tech=KANI, ref="§6 C02", text="The iteration order of every hash map is a symbolic variable: range scans and full scans are shown to return the same, key-sorted list for every order, so list-valued answers built on them cannot differ between replicas. Narrow claim (scan order + pinned derivation constants); revm, hashes and golden digests are outside.",
                 note="Trusted: HashMap model's order nondeterminism (forwards/backwards/rotated insertion sequence = all permutations of <=3 keys)."),
-    "C03": dict(tech=KANI, ref="§6 C03", text="Reads merge cache over disk (point, range, full scan, block tables), a table commit writes exactly the rows that leave every read answer unchanged and empties the cache, commit is refused mid-block: decided for all symbolic rows inside the bounds, one table at a time. NOT decided: that commit / clear cover every table of the database (DESIGN.md 11.2).",
+    "C03": dict(tech=KANI + "; " + SMT, ref="§6 C03", text="Reads merge cache over disk (point, range, full scan, block tables), a table commit writes exactly the rows that leave every read answer unchanged and empties the cache, commit is refused mid-block: decided for all symbolic rows inside the bounds, one table at a time. NOT decided: that commit / clear cover every table of the database (DESIGN.md 11.2).",
                 note="Trusted: RocksDB model (reopen = new object over the same rows); process restart with real RocksDB is outside."),
-    "C04": dict(tech=KANI, ref="§6 C04", text="The crash point is a symbolic write budget in the RocksDB model: after a table commit cut at ANY write the disk never holds a new latest value with an old history, a cut block-table commit leaves a prefix, and the cut states roll back correctly (a stale latest row is rewritten, rows above a hole are deleted). NOT decided: heights-before-state order over the whole database (DESIGN.md 11.2).",
+    "C04": dict(tech=KANI + "; " + SMT, ref="§6 C04", text="The crash point is a symbolic write budget in the RocksDB model: after a table commit cut at ANY write the disk never holds a new latest value with an old history, a cut block-table commit leaves a prefix, and the cut states roll back correctly (a stale latest row is rewritten, rows above a hole are deleted). The table order of commit_changes (block-number->hash table committed before any versioned table) and of reorg (rolled back after every versioned table), and that nothing is written after a failed step, are decided on the MIR paths of the two functions (SMT). NOT decided: the whole-database commit as one solver run with a symbolic budget across tables (DESIGN.md 11.2).",
                 note="Trusted: single RocksDB writes are atomic and durable when they return Ok (model); torn writes and revm-internal crashes are outside."),
     "C05": dict(tech=KANI + "; " + SMT, ref="§6 C05", text="The waiting-tx guard of commit / reorg / mine, the engine-level reorg acceptance and the exactly-one-encoding rule are compared with reference predicates written from the property text for all symbolic arguments and engine states, and refusals are shown to happen before any lock write or storage write. validate_next_tx is compared with its reference predicate (tx_idx = count, same timestamp and hash, block number and hash unknown) with alloc::fmt::format stubbed; the database-level depth guard of reorg is decided from the MIR paths of the function (SMT). NOT decided: that a call rejected after EVM execution started leaves nothing behind; finalise with a wrong count.",
                 note="Errors raised after partial EVM execution and RPC parameter decoding are outside."),
